@@ -5,7 +5,8 @@ from .. import lean, proto, gen, util
 
 REQUIRED = ['Petl.C19.' + n for n in (
     'policy_false_total policy_inline_cell policy_true_prefix nonfailing_identical_across_policies nonfailing_cell_same '
-    'rowmap_policies rowmapmany_keeps_produced default_from_config_at_construction').split()]
+    'rowmap_policies rowmapmany_keeps_produced default_from_config_at_construction ladders_as_expected defaults_from_config '
+    'cellLadder_sem transformValue_follows_ladder rowLadder_sem rowmapRows_follows_ladder').split()]
 
 POL = {'s': False, 'r': True, 'i': 'inline'}
 EXC = {'Value': ValueError, 'Type': TypeError, 'Key': KeyError}
@@ -28,7 +29,13 @@ def run(ctx):
                 'convert, fieldmap, rowmap, rowmapmany: rows delivered before the exception are observed by iterating with next(). '
                 'Real vs model exact. Non-trivial: a non-empty failing set.')
     ctx.assumptions += ['converters are the catalogue function failOn(S, exc): raises exc on the values of S, wraps others in a list']
-    ctx.prove(['PetlProofs.Props.C19'], REQUIRED)
+    from translators import policy as _pol
+    try:
+        info = _pol.generate()
+        ctx.bridge('translator: failonerror if-chains of %d exception handlers and the config defaults of their views' % info['sites'], True)
+    except Exception as e:   # noqa
+        ctx.bridge('translator: failonerror ladders extracted', False, repr(e))
+    ctx.prove(['PetlProofs.Props.C19', 'PetlProofs.Props.C19Ladder'], REQUIRED)
     rng = ctx.rng
     maxn = 6 if ctx.thorough() else 4
     jobs = []
